@@ -346,6 +346,57 @@ func TestC06(t *testing.T) {
 		}
 	}
 
+	// heavy contention: many goroutines hammer one selector; totals must be exactly fair
+	heavy := rep.Pick(40, 400)
+	for h := 0; h < heavy; h++ {
+		sel, _ := newSelectors()
+		rr := sel["round-robin"]
+		n := 2 + rng.Intn(4)
+		l := make([]*domain.Endpoint, n)
+		idx := map[*domain.Endpoint]int{}
+		for j := range l {
+			l[j] = mkEndpoint(j, 1, statuses[rng.Intn(3)])
+			idx[l[j]] = j
+		}
+		G := 4 + rng.Intn(13)
+		per := n * (200 + rng.Intn(800))
+		counts := make([][]int, G)
+		var wg sync.WaitGroup
+		start := make(chan struct{})
+		for g := 0; g < G; g++ {
+			counts[g] = make([]int, n)
+			wg.Add(1)
+			go func(g int) {
+				defer wg.Done()
+				<-start
+				for i := 0; i < per; i++ {
+					got, err := rr.Select(ctx, l)
+					if err == nil {
+						counts[g][idx[got]]++
+					}
+				}
+			}(g)
+		}
+		close(start)
+		wg.Wait()
+		tot := make([]int, n)
+		for g := range counts {
+			for j, c := range counts[g] {
+				tot[j] += c
+			}
+		}
+		want := G * per / n
+		run.Eval(fmt.Sprintf("rrheavy:n%d:G%d:per%d:h%d", n, G, per, h))
+		run.Count("rr_heavy_rounds", 1)
+		run.Count("rr_heavy_ops", int64(G*per))
+		for j, c := range tot {
+			if c != want {
+				run.Violation("C06/round-robin/concurrent-totals-unfair", fmt.Sprintf("after %d concurrent selections over %d endpoints, endpoint %d was picked %d times, expected exactly %d", G*per, n, j, c, want), map[string]any{"counts": tot, "goroutines": G})
+				break
+			}
+		}
+	}
+
 	// (d) least-connections --------------------------------------------------------------
 	lcSeq := rep.Pick(3000, 40000)
 	for i := 0; i < lcSeq; i++ {
